@@ -2,25 +2,32 @@ import Lean.Data.Json
 import PynguinModel.Model.ThreadGuard
 /-! Line-protocol driver for C32: one JSON case per line in, one JSON result per line out.
 
-Case: `{"n": <threads>, "evs": [{"tid": t, "op": <op>}…], "execs": [{"tid": t, "stopped": b}…]}`.
-Output: per event whether it raised, the final `current`, import trace, per-thread flag/trace, and for
-each listed execution what `TestCaseExecutor.execute` returns according to the model, whether the
-thread's calls have the shape `execOps stmts` and (if so and a result was delivered) whether the
-delivered trace equals `soloTrace`. -/
+Case: `{"n": <threads>, "evs": [{"tid": t, "op": <op>}…], "hist": [<HEv>…], "execs": [{"k": k, "tid": t}…]}`.
+A schedule case has `hist = []`; a history case has `evs = []` and gives the whole history (tracer
+calls, `put`s of the test threads, `collect`s of the main thread) in `hist`; its tracer schedule is
+`callsOf hist`.
+Output: per tracer call whether it raised, the final `current`, import trace, per-thread flag/trace, and
+for each listed execution what `TestCaseExecutor.execute` returns according to the model (per-execution
+result queue: `hrun .perExecution`), whether the thread's calls have the shape `execOps stmts` and (if so
+and a result was returned) whether the returned trace equals `soloTrace`; `sharedDiffers` tells whether a
+single shared queue would have returned something else anywhere in this history. -/
 open Lean PynguinModel.ThreadGuard
 
 deriving instance FromJson for Cb
 deriving instance FromJson for Op
 deriving instance FromJson for Ev
 
+deriving instance FromJson for HEv
+
 structure Exec where
+  k : Nat
   tid : Nat
-  stopped : Bool
   deriving FromJson
 
 structure Case where
   n : Nat
   evs : List Ev
+  hist : List HEv
   execs : List Exec
   deriving FromJson
 
@@ -56,32 +63,40 @@ def parseExec : List Op → Option (List Stmt)
   | .initTrace :: .enter :: rest => parseStmts rest
   | _ => none
 
+def resJ : HResult → Json
+  | .timeout => "timeout"
+  | .ok p r => Json.mkObj [("producer", toJson p), ("trace", traceJ r.trace),
+      ("exc", toJson (r.exc.map fun (i, x) => [i, x]))]
+
 def runCase (c : Case) : Json :=
   let s0 := T.init
-  let fin := run s0 c.evs
+  let evs := if c.hist.isEmpty then c.evs else callsOf c.hist
+  let hr := hrun .perExecution (H.init s0) [] c.hist
+  let fin := if c.hist.isEmpty then run s0 evs else hr.1.tr
+  let results := hr.2
+  let shared := (hrun .shared (H.init s0) [] c.hist).2
   let locals := (List.range c.n).map fun t =>
     Json.mkObj [("enabled", toJson (fin.loc t).enabled), ("trace", traceJ (fin.loc t).trace)]
   let execs := c.execs.map fun e =>
-    let ops := opsOf e.tid c.evs
-    let res := executeResult e.stopped (threadOutcome e.tid s0 c.evs)
+    let ops := opsOf e.tid evs
+    let res := (results.lookup e.k).getD .timeout
     -- the import trace in force when the thread called init_trace: the schedule's final import trace
     -- (import-time calls precede all executions in the histories sent here)
     let shape : Json := match parseExec ops with
       | some stmts =>
         if execOps stmts = ops then
           match res with
-          | .ok tr => Json.mkObj [("shape", "exec"), ("soloEq", toJson (decide (tr = soloTrace fin.imp stmts)))]
+          | .ok _ r => Json.mkObj [("shape", "exec"), ("soloEq", toJson (decide (r.trace = soloTrace fin.imp stmts)))]
           | .timeout => Json.mkObj [("shape", "exec")]
         else Json.mkObj [("shape", "parse-mismatch")]
       | none => Json.mkObj [("shape", "other")]
-    let r : Json := match res with
-      | .timeout => "timeout"
-      | .ok tr => traceJ tr
-    Json.mkObj [("tid", toJson e.tid), ("result", r), ("raised", toJson (raisedBy e.tid s0 c.evs)),
-      ("form", shape)]
-  Json.mkObj [("raised", toJson (runLog s0 c.evs)),
+    Json.mkObj [("k", toJson e.k), ("tid", toJson e.tid), ("result", resJ res),
+      ("collected", toJson (results.lookup e.k).isSome),
+      ("raised", toJson (raisedBy e.tid s0 evs)), ("form", shape)]
+  Json.mkObj [("raised", toJson (runLog s0 evs)),
     ("current", match fin.current with | some t => toJson t | none => Json.null),
-    ("imp", traceJ fin.imp), ("locals", Json.arr locals.toArray), ("execs", Json.arr execs.toArray)]
+    ("imp", traceJ fin.imp), ("locals", Json.arr locals.toArray), ("execs", Json.arr execs.toArray),
+    ("sharedDiffers", toJson (decide (shared ≠ results)))]
 
 partial def loop (h : IO.FS.Stream) : IO Unit := do
   let line ← h.getLine
